@@ -71,7 +71,7 @@ class Run:
         err = None
         if scn.get("via") == "cli":
             a = ["mpi", "generate", "--output-file", out, "--vendor-name", v, "--class-name", c, "--address",
-                 hex(scn["addr"]), "--size", scn["size"]]
+                 core.num(scn["addr"]), "--size", core.num(scn["size"] + 0) if scn["size"] % 3 else scn["size"]]
             if scn["dp"]:
                 a.append("--downgrade-prevention-enabled")
             if scn["iu"]:
@@ -121,7 +121,7 @@ class Run:
             out.write_bytes(STALE)
         err = None
         if scn.get("via") == "cli":
-            a = ["mpi", "merge", "--output-file", out, "--address", hex(scn["addr"]), "--size", scn["size"]]
+            a = ["mpi", "merge", "--output-file", out, "--address", core.num(scn["addr"]), "--size", core.num(scn["size"] + 0) if scn["size"] % 3 else scn["size"]]
             for f in files:
                 a += ["--file", f]
             p = subprocess.run(core.cli_cmd(*a), cwd=d, env=core.cli_env(), capture_output=True, text=True)
